@@ -14,7 +14,7 @@ KINDS = {
     "C20": ["MembersLostOnRestart", "RemovedStillListed", "MemberMissing", "AddressWrong", "JoinFailed", "RestartFailed", "NodeDied",
             "SearchUnavailable", "PeerUnreachable"],      # every node up, a search through some node fails: a peer hosting a partition is not reached
 }
-SCENARIOS = ["basic", "wiring", "snapshot", "leave", "lagging", "lagging-leave", "joinfail", "lagging-replicas", "joincrash", "rejoin", "leave-boot", "lagging-empty", "dead-leave", "lagging-rejoin", "rejoin-stale"]
+SCENARIOS = ["basic", "wiring", "snapshot", "leave", "lagging", "lagging-leave", "joinfail", "lagging-replicas", "joincrash", "rejoin", "leave-boot", "lagging-empty", "dead-leave", "lagging-rejoin", "rejoin-stale", "conf-burst"]
 
 
 def run_scenarios(ctx, repeat, scenarios=None):
@@ -113,7 +113,7 @@ def run_family(ctx):
         r = ctx.tlc("Membership", "Membership_mc.cfg", timeout=900)
         if r.violated:
             raise vlib.NoVerdict("Membership violates %s in the repaired switch positions" % r.violated)
-        for sw in ("SnapshotHasBook", "BootHasAddr", "ForgetClientOnRemove", "AddOverwrites", "ClientPerCall"):
+        for sw in ("SnapshotHasBook", "BootHasAddr", "ForgetClientOnRemove", "AddOverwrites", "ClientPerCall", "AckOnApply"):
             over = {sw: "FALSE"}
             if sw == "ForgetClientOnRemove":
                 over["ClientPerCall"] = "FALSE"     # the cached client is what has to be forgotten
